@@ -2,7 +2,8 @@
 From Coq Require Import List NArith String Bool Sorted.
 From V Require Import Base.Strings Base.Result Model.Registry Model.Settings Model.Subst
   Model.TypePath Model.Derives Model.Generate Model.Emit Model.Equal Model.WellFormed
-  Proofs.GenProofs Proofs.SortDedup Proofs.ClosedProofs.
+  Proofs.GenProofs Proofs.SortDedup Proofs.ClosedProofs
+  Checkers.Parse Model.Unparse Proofs.ParseTy Proofs.ParseItem Proofs.ParseMod.
 Import ListNotations.
 
 (** every emitted item is the IR of an item-eligible registry entry, sitting at that entry's path *)
@@ -78,3 +79,56 @@ Theorem C02_unique_modules :
   StronglySorted (fun a b => String.compare a b = Lt) (child_names es) /\ NoDup (child_names es).
 Proof. exact child_names_unique. Qed.
 Print Assumptions C02_unique_modules.
+
+(** ** C02_emit_parses: the independent token reader [Checkers/Parse.v] (which shares no code with
+    the printer [Model/Emit.v]) reads every printed stream back into the tree [Model/Unparse.v]
+    computes from the IR.  Scope ("plain"): every path the printer does not build itself (path
+    tokens of [TPath] nodes, the compact / bits wrapper paths, the alloc crate path) is a path of
+    identifier segments without generic arguments ([plain_path]: what [from_type_def_path], the
+    prelude table and PassThrough substitutes produce; Specified substitutes that carry their own
+    generic arguments are out of scope); user derive paths are bracket-balanced and user attributes
+    have the form [# [ balanced ]] ([derives_okb]: the reader skips attributes by counting
+    delimiters); item, variant and named-field idents are not punctuation tokens and not [pub]
+    ([ident_tok]).  [Open Scope nat_scope] is not assumed: lengths are [List.length]. *)
+
+(** types: for a plain path [t] printed as [toks], the reader started on [toks ++ rest] with fuel
+    above [length toks] returns [ir_pty alloc t] and stops exactly at [rest], provided [rest] does
+    not continue a type ([ty_stop]: it is empty or its first token is neither [<] nor [:], e.g.
+    [,] [>] [)] [;]).  The entry point [parse_type] uses fuel [S (length toks)]. *)
+Theorem C02_type_parses :
+  forall alloc, alloc_okb alloc = true ->
+  forall t toks, tp_plain t = true -> tp_tokens alloc t = Ok toks ->
+  forall rest, ty_stop rest = true ->
+  forall fuel, (List.length toks < fuel)%nat ->
+  parse_ty fuel (toks ++ rest) = Some (ir_pty alloc t, rest).
+Proof. exact type_parses. Qed.
+Print Assumptions C02_type_parses.
+
+Theorem C02_type_parses_entry :
+  forall alloc, alloc_okb alloc = true ->
+  forall t toks, tp_plain t = true -> tp_tokens alloc t = Ok toks ->
+  parse_type toks = Some (ir_pty alloc t).
+Proof. exact parse_type_emitted. Qed.
+Print Assumptions C02_type_parses_entry.
+
+(** items: all struct forms (unit with / without PhantomData marker, tuple, named; compact and skip
+    attributes, docs, derives, generics) and enums (index attributes, docs, unit / tuple / named
+    variants, the [__Ignore] variant).  The side condition on [rest] is needed for a braced struct
+    only (the reader would take a following [;] for the struct's own). *)
+Theorem C02_item_parses :
+  forall s ir toks,
+  type_ir_tokens s ir = Ok toks -> ir_plain s ir = true ->
+  forall fuel rest, (List.length toks < fuel)%nat ->
+  (pi_is_enum (item_of_ir s ir) = false -> pi_semi (item_of_ir s ir) = false ->
+   hd_is ";" rest = false) ->
+  parse_item fuel (toks ++ rest) = Some (item_of_ir s ir, rest).
+Proof. exact item_parses. Qed.
+Print Assumptions C02_item_parses.
+
+(** the whole module tree *)
+Theorem C02_emit_parses :
+  forall s m toks,
+  emit_module s m = Ok toks -> items_plain s m = true ->
+  parse_module toks = Some (pmod_of_items s m).
+Proof. exact emit_parses. Qed.
+Print Assumptions C02_emit_parses.
